@@ -693,6 +693,34 @@ def scenarios(rng, ctx0=5000):
         for a in (y1, y2, y3):
             for b in (y2, y3, y4): s.get_cov(a, b); s.get_corr(a, b)
         done(s)
+    # S18: operands whose influence sets TOUCH: the last (highest-uid) influence of one operand is the first (lowest-uid) influence
+    # of the other, in both operand orders, for + (merge_vectors) and - * / (weighted merges); also nested / single-element sets
+    for variant in range(3):
+        s = new()
+        kinds = [(False, True, None)[variant] if variant < 2 else (rng.random() < 0.5) for _ in range(6)]
+        for dep in kinds: s.ureal(_rv(rng), _rv(rng, .1, 1), inf, indep=not dep)
+        def wsum18(sub):
+            acc = None
+            for i in sub:
+                s.bin('mul', ('num', _rv(rng)), ('ref', i)); t = len(s.slots) - 1
+                if acc is None: acc = t
+                else:
+                    s.bin('add', ('ref', acc), ('ref', t)); acc = len(s.slots) - 1
+            return acc
+        pairs = [([0, 1], [1, 2]), ([0], [0, 1]), ([0, 1, 2], [2, 3]), ([1, 3], [3, 4, 5]), ([2], [2, 3]), ([0, 4], [4]), ([1, 2, 3], [3])]
+        for k, (A, B) in enumerate(pairs):
+            a = wsum18(A); b = wsum18(B)
+            s.bin('add', ('ref', a), ('ref', b)); y1 = len(s.slots) - 1
+            s.bin('add', ('ref', b), ('ref', a)); y2 = len(s.slots) - 1
+            s.bin(('sub', 'mul', 'div')[k % 3], ('ref', a), ('ref', b)); y3 = len(s.slots) - 1
+            s.read('u', y1); s.read('u', y2); s.read('u', y3)
+            for i in sorted(set(A) | set(B)): s.ucomp(y1, i); s.ucomp(y2, i)
+        # the raw inputs themselves: a + a*b, a*b + b
+        s.bin('mul', ('ref', 0), ('ref', 1)); p01 = len(s.slots) - 1
+        s.bin('add', ('ref', 0), ('ref', p01)); q1 = len(s.slots) - 1; s.bin('add', ('ref', p01), ('ref', 1)); q2 = len(s.slots) - 1
+        for q in (q1, q2):
+            s.read('u', q); s.ucomp(q, 0); s.ucomp(q, 1)
+        done(s)
     # S13: reporting calls (budget / components, with and without intermediates) between operations: they must not change
     # any number -- the operands are used again afterwards (merges with numbers having other influences) and re-budgeted
     for variant in range(2):
